@@ -1144,6 +1144,43 @@ func (e *Enc) evalCallSpec(x SCall, ctx *specCtx) *Val {
 		}
 		k := e.evalSpec(x.Args[0], ctx)
 		return mathBool("(select " + ent.V.L[0] + " " + k.L[0] + ")")
+	case "sum":
+		// sum(xs): mathematical sum of the elements of an integer slice; an uninterpreted
+		// function of (row, offset, length) with update axioms (no induction needed for
+		// "one element changes by v")
+		v := e.evalSpec(x.Args[0], ctx)
+		sl, ok := v.T.Underlying().(*types.Slice)
+		if !ok || !isInteger(sl.Elem()) {
+			e.fail("sum(xs): xs must be a slice of integers")
+		}
+		st := ctx.st
+		if ctx.inOld {
+			st = ctx.old
+		}
+		row := e.sliceRow(st, v, sl.Elem())
+		if !e.declSet["ssum"] {
+			e.declSet["ssum"] = true
+			e.decls = append(e.decls, "(declare-fun ssum ((Array Int Int) Int Int) Int)")
+			e.assume("(forall ((r (Array Int Int)) (o Int)) (! (= (ssum r o 0) 0) :pattern ((ssum r o 0))))")
+			e.assume("(forall ((o Int) (n Int)) (! (= (ssum ((as const (Array Int Int)) 0) o n) 0) :pattern ((ssum ((as const (Array Int Int)) 0) o n))))")
+		}
+		{
+			// register the view: stores into this heap component emit ground update facts
+			// (a quantified update axiom over all arrays made unrelated queries diverge)
+			lv := typeLeaves(sl.Elem())
+			hk := e.hkey(sl.Elem(), "", lv[0], 0)
+			t := sumTerm{hk.Key, v.L[slRef], v.L[slOff], v.L[slLen]}
+			seen := strings.Contains(t.ref+t.off+t.ln, "?") // mentions a bound variable: no global facts
+			for _, o := range e.sumTerms {
+				if o == t {
+					seen = true
+				}
+			}
+			if !seen {
+				e.sumTerms = append(e.sumTerms, t)
+			}
+		}
+		return mathInt("(ssum " + row + " " + v.L[slOff] + " " + v.L[slLen] + ")")
 	case "heldany":
 		// heldany(T.mu): the mutex mu of the (single) T instance is held by this goroutine
 		// (type-level flag used by `guarded ... by (T).mu`)
